@@ -69,6 +69,19 @@ def check(case) -> core.Out:
         out.classes = ["skipped:hang(C08)"]
         return out
     if exc is not None:
+        if S.is_protocol_error(exc):
+            # errors are not raised in these configurations; if a masked run of the
+            # same stream goes through, the mask changed more than the selection
+            for F in (1, 2, 4, 3, 5, 6):
+                try:
+                    _g, e2 = run(data, dict(opts, protfilter=F, parsing=True))
+                except S.HarnessHang:
+                    continue
+                if e2 is None:
+                    out.viol.append((f"{PROP}|mask|raise-differs",
+                                     f"all-protocols run raised {exc!r} but protfilter={F} reads the same stream "
+                                     f"to the end; stream {data[:50].hex()} ({len(data)} bytes)"))
+                    return out
         out.classes = ["skipped:reference-run-raises(C08)"]
         return out
     protos = {S.proto_of(r) for r, _ in ref}
@@ -94,6 +107,8 @@ def check(case) -> core.Out:
         if len(want) < len(ref):
             removed = True
         if exc is not None:
+            if not S.is_protocol_error(exc):
+                continue  # foreign exception from a dependency parser: C08's business
             out.viol.append((f"{PROP}|mask|raises:{type(exc).__name__}", f"mask {F}: {exc!r} on {data[:40].hex()}"))
         elif not S.same_items(got, want):
             out.viol.append((f"{PROP}|mask|items-differ",
